@@ -9,7 +9,7 @@
 #[path = "../searcher_common.rs"]
 mod searcher_common;
 
-use std::path::PathBuf;
+use std::path::{Path, PathBuf};
 
 use grep_matcher::Matcher;
 use rgverif_harness::*;
@@ -27,6 +27,8 @@ struct Ctx {
     /// every run of a case (state carried from one search to the next is part of "for all histories")
     searchers: std::collections::HashMap<String, Searchers>,
     heap_searchers: std::collections::HashMap<String, grep_searcher::Searcher>,
+    /// the real binary (CLI stream)
+    rg: Option<PathBuf>,
 }
 
 enum AnyM {
@@ -218,6 +220,10 @@ fn flush(batch: &mut Vec<Prep>, ctx: &mut Ctx) {
 }
 
 fn run_case(line: &str, ctx: &mut Ctx) {
+    if line.starts_with("cli-maxcount ") {
+        cli_maxcount_run(line, ctx);
+        return;
+    }
     let mut b: Vec<Prep> = prepare(line, ctx).into_iter().collect();
     flush(&mut b, ctx);
 }
@@ -826,6 +832,243 @@ fn ml_regex_case(rng: &mut Rng) -> String {
     Case { cfg, m: MatcherSpec::Re { mode: ReMode::Plain, pattern: p }, input, script: None }.line()
 }
 
+// ---------------------------------------------------------------- the real `rg` binary with -m N
+
+/// One output record of `rg`: a matching line, a context line (with their line numbers) or a `--` separator.
+#[derive(Clone, Debug, PartialEq, Eq)]
+enum Rec {
+    Match(u64),
+    Ctx(u64),
+    Brk,
+}
+
+fn show_recs(r: &[Rec]) -> String {
+    r.iter()
+        .map(|x| match x {
+            Rec::Match(n) => format!("m{}", n),
+            Rec::Ctx(n) => format!("c{}", n),
+            Rec::Brk => "--".to_string(),
+        })
+        .collect::<Vec<_>>()
+        .join(" ")
+}
+
+/// the records of an event stream (`m ln off hex`, `c k ln off hex`, `brk`)
+fn recs_of_events(evs: &[&str]) -> Vec<Rec> {
+    let mut out = vec![];
+    for e in evs {
+        let f: Vec<&str> = e.split(' ').collect();
+        if f[0] == "m" {
+            out.push(Rec::Match(f[1].parse().unwrap_or(0)));
+        } else if f[0] == "c" {
+            out.push(Rec::Ctx(f[2].parse().unwrap_or(0)));
+        } else if *e == "brk" {
+            out.push(Rec::Brk);
+        }
+    }
+    out
+}
+
+/// `-m N` through rg's own flag wiring, in every output format: a generated (needle, input, -A, -B, -v, N) is run
+/// through the real binary as `rg -n`, `rg --json` and `rg --count`, and each output is compared with the limit
+/// semantics of the model: the uninterrupted event stream of the Lean model cut after the callback at which
+/// `Spec/MaxCount` says the printer first refuses (`c16.quitindex`: the N-th match plus its trailing context) —
+/// every delivered callback is one output record; `matched_lines` of the JSON end message is the number of
+/// delivered match records; `--count` is the number of matches up to the N-th (`c16.summaryquit`).
+fn cli_maxcount_case(rng: &mut Rng) -> String {
+    let needle = *rng.pick(&["m", "ab", "x"]);
+    let other = *rng.pick(&["o", "y1", "zz z"]);
+    let nl = rng.range(1, 9);
+    let mut input = vec![];
+    for i in 0..nl {
+        let line = if rng.chance(1, 2) { format!("{}{}{}", other, needle, i) } else { format!("{}{}", other, i) };
+        input.extend_from_slice(line.as_bytes());
+        if i + 1 < nl || rng.chance(4, 5) {
+            input.push(b'\n');
+        }
+    }
+    let cfg = Cfg {
+        lt: Lt::Lf,
+        inv: rng.chance(1, 4),
+        a: rng.range(0, 2),
+        b: rng.range(0, 2),
+        pt: false,
+        ln: true,
+        son: false,
+        ml: false,
+        bin: Bin::None,
+    };
+    let nlim = rng.range(1, 4) as u64;
+    format!("cli-maxcount {} {} {} {}", cfg.token(), nlim, hex(needle.as_bytes()), hex(&input))
+}
+
+/// run one `cli-maxcount <cfg> <N> <needle-hex> <input-hex>` case
+fn cli_maxcount_run(line: &str, ctx: &mut Ctx) {
+    let p: Vec<&str> = line.split_whitespace().collect();
+    let parsed = (|| {
+        if p.len() != 5 {
+            return None;
+        }
+        Some((Cfg::parse_token(p[1])?, p[2].parse::<u64>().ok()?, String::from_utf8(unhex(p[3])?).ok()?, unhex(p[4])?))
+    })();
+    let Some((cfg, nlim, needle_s, input)) = parsed else {
+        ctx.rep.violation(Violation {
+            kind: "impl_vs_model".into(),
+            class: "".into(),
+            tie: "harness".into(),
+            case: line.to_string(),
+            detail: "unparsable cli-maxcount case line".into(),
+        });
+        return;
+    };
+    let Some(rg) = ctx.rg.clone() else {
+        ctx.rep.branch("cli-maxcount:skipped-no-rg-binary");
+        return;
+    };
+    let rg: &Path = &rg;
+    let needle: &str = &needle_s;
+    let m = LitMatcher::new(needle.as_bytes().to_vec(), Some(Lt::Lf), None, None);
+    let case = line.to_string();
+    ctx.rep.eval();
+    // M: the uninterrupted stream of the model, cut where the spec says the printer stops
+    let e_model = ctx.drv.ask(&format!("c16.model {} {} {} (sink all)", cfg.to_sx(), m.to_sx(), hex(&input)));
+    if is_driver_error(&e_model) {
+        ctx.rep.violation(Violation {
+            kind: "impl_vs_model".into(),
+            class: "".into(),
+            tie: "driver c16.model (cli stream)".into(),
+            case: case.clone(),
+            detail: format!("driver answered {:?}", e_model),
+        });
+        return;
+    }
+    let (evs, _) = split_run(&e_model);
+    let kinds = kinds_str(&evs);
+    let q = ctx.drv.ask(&format!("c16.quitindex {} {} {}", nlim, cfg.a, kinds));
+    let sq = ctx.drv.ask(&format!("c16.summaryquit {} {}", nlim, kinds));
+    let cut = |reply: &str| -> Option<usize> {
+        let spec = reply.split_once('|').map(|x| x.1)?;
+        if spec == "-" {
+            Some(evs.len())
+        } else {
+            spec.parse::<usize>().ok().map(|k| k + 1)
+        }
+    };
+    let (Some(qcut), Some(scut)) = (cut(&q), cut(&sq)) else {
+        ctx.rep.violation(Violation {
+            kind: "impl_vs_model".into(),
+            class: "".into(),
+            tie: "driver c16.quitindex / c16.summaryquit (cli stream)".into(),
+            case: case.clone(),
+            detail: format!("driver answered {:?} / {:?}", q, sq),
+        });
+        return;
+    };
+    let want = recs_of_events(&evs[..qcut.min(evs.len())]);
+    let want_matched = want.iter().filter(|r| matches!(r, Rec::Match(_))).count() as u64;
+    let want_count = evs[..scut.min(evs.len())].iter().filter(|e| e.starts_with("m ")).count() as u64;
+    ctx.rep.branch(if qcut < evs.len() { "cli-maxcount:limit-hit" } else { "cli-maxcount:limit-not-hit" });
+    if want.iter().any(|r| matches!(r, Rec::Ctx(_))) {
+        ctx.rep.nontrivial(&case);
+    }
+
+    ctx.files += 1;
+    let f = scratch_file(&ctx.scratch, &format!("c16-cli-{}.txt", ctx.files % 16), &input);
+    let run = |extra: &[&str]| -> (String, i32) {
+        let mut c = std::process::Command::new(rg);
+        c.env_remove("RIPGREP_CONFIG_PATH").arg("--no-config").arg("--color").arg("never").arg("-j1").arg("-F");
+        c.arg("-m").arg(nlim.to_string());
+        if cfg.a > 0 {
+            c.arg("-A").arg(cfg.a.to_string());
+        }
+        if cfg.b > 0 {
+            c.arg("-B").arg(cfg.b.to_string());
+        }
+        if cfg.inv {
+            c.arg("-v");
+        }
+        for x in extra {
+            c.arg(x);
+        }
+        c.arg("-e").arg(needle).arg(&f).stdin(std::process::Stdio::null());
+        match c.output() {
+            Ok(o) => (String::from_utf8_lossy(&o.stdout).to_string(), o.status.code().unwrap_or(-1)),
+            Err(e) => (format!("spawn failed: {}", e), -2),
+        }
+    };
+    let file = |tie: &str, detail: String, ctx: &mut Ctx| {
+        ctx.rep.violation(Violation { kind: "impl_vs_spec".into(), class: "".into(), tie: tie.to_string(), case: case.clone(), detail });
+    };
+    // 1. standard printer: `N:text`, `N-text`, `--`
+    let (out, code) = run(&["-n"]);
+    let mut got = vec![];
+    let mut bad = code < 0 || code > 1;
+    for l in out.lines() {
+        if l == "--" {
+            got.push(Rec::Brk);
+            continue;
+        }
+        let digits: String = l.chars().take_while(|c| c.is_ascii_digit()).collect();
+        match (digits.parse::<u64>(), l[digits.len()..].chars().next()) {
+            (Ok(n), Some(':')) => got.push(Rec::Match(n)),
+            (Ok(n), Some('-')) => got.push(Rec::Ctx(n)),
+            _ => bad = true,
+        }
+    }
+    if bad || got != want {
+        file(
+            "rg -n -m N [-A -B -v]: the lines printed = the model's callbacks up to the one at which the limit rule stops (N-th match + trailing context)",
+            format!("exit {} printed [{}] expected [{}] (stream {})", code, show_recs(&got), show_recs(&want), kinds),
+            ctx,
+        );
+    }
+    // 2. JSON printer: match / context records (no separators), matched_lines in the end message
+    let (out, code) = run(&["--json"]);
+    let mut got = vec![];
+    let mut matched_lines = 0u64;
+    let mut bad = code < 0 || code > 1;
+    for l in out.lines() {
+        match serde_json::from_str::<serde_json::Value>(l) {
+            Ok(v) => {
+                let ln = v["data"]["line_number"].as_u64().unwrap_or(0);
+                match v["type"].as_str() {
+                    Some("match") => got.push(Rec::Match(ln)),
+                    Some("context") => got.push(Rec::Ctx(ln)),
+                    Some("end") => matched_lines = v["data"]["stats"]["matched_lines"].as_u64().unwrap_or(u64::MAX),
+                    _ => {}
+                }
+            }
+            Err(_) => bad = true,
+        }
+    }
+    let want_json: Vec<Rec> = want.iter().filter(|r| **r != Rec::Brk).cloned().collect();
+    if bad || got != want_json || matched_lines != want_matched {
+        file(
+            "rg --json -m N [-A -B -v]: match / context records and matched_lines = the model's callbacks up to the limit rule's stop",
+            format!(
+                "exit {} records [{}] matched_lines {} expected [{}] matched_lines {} (stream {})",
+                code,
+                show_recs(&got),
+                matched_lines,
+                show_recs(&want_json),
+                want_matched,
+                kinds
+            ),
+            ctx,
+        );
+    }
+    // 3. summary printer: --count stops counting at the N-th match
+    let (out, code) = run(&["--count"]);
+    let got_count = if out.trim().is_empty() { Some(0) } else { out.trim().parse::<u64>().ok() };
+    if code < 0 || code > 1 || got_count != Some(want_count) {
+        file(
+            "rg --count -m N [-v]: the count = min(N, matching lines)",
+            format!("exit {} printed {:?} expected {} (stream {})", code, out.trim(), want_count, kinds),
+            ctx,
+        );
+    }
+}
+
 fn main() {
     let args = parse_args();
     let drv = Driver::spawn(&args.driver);
@@ -838,7 +1081,8 @@ fn main() {
          search_reader (1-byte and small chunks), search_path (mmap / no mmap) are checked against the rule relative to their own \
          uninterrupted run (sampled k in the quick tier, all k in the thorough tier), and a reader failing at read call j \
          (Other / Interrupted) must leave a prefix without finish and an error. The byte count of a finish after an early stop \
-         is not compared by the rule (only its presence). Non-trivial = the uninterrupted run has >= 4 events including a \
+         is not compared by the rule (only its presence). CLI stream: the real rg binary with -m N [-A -B -v] on generated files, as \
+         rg -n, rg --json and rg --count, each compared with the model's stream cut by the limit rule of Spec/MaxCount. Non-trivial = the uninterrupted run has >= 4 events including a \
          context line or a break. Distinct by case text.",
     );
     let mut ctx = Ctx {
@@ -849,6 +1093,7 @@ fn main() {
         thorough: args.thorough,
         searchers: Default::default(),
         heap_searchers: Default::default(),
+        rg: args.rg.clone(),
     };
     for c in corpus_cases(&args) {
         run_case(&c, &mut ctx);
@@ -878,6 +1123,15 @@ fn main() {
             }
         }
         flush(&mut batch, &mut ctx);
+        // the real binary: -m N through rg's flag wiring, standard / JSON / count output
+        if let Some(rg) = args.rg.clone() {
+            let ncli = if args.thorough { 2500 } else { 400 };
+            let _ = rg;
+            for _ in 0..ncli {
+                let c = cli_maxcount_case(&mut rng);
+                cli_maxcount_run(&c, &mut ctx);
+            }
+        }
     }
     ctx.rep.write(&args);
 }
